@@ -864,7 +864,7 @@ func (vfs *MemFS) Rename(oldpath, newpath string) error {
 		}
 	}
 
-	switch oChild.(type) {
+	switch c := oChild.(type) {
 	case *dirNode:
 		// A directory can't replace a directory, not even itself (as os.Rename).
 		if _, ok := nChild.(*dirNode); ok && !vfs.isNotExist(nErr) {
@@ -893,6 +893,19 @@ func (vfs *MemFS) Rename(oldpath, newpath string) error {
 			}
 
 			return &os.LinkError{Op: op, Old: oldpath, New: newpath, Err: nErr}
+		}
+
+		// Moving a directory to another directory changes its parent directory entry :
+		// as on Linux, it requires write permission on the directory itself.
+		// An administrator has it, the node is looked at for the other users only.
+		if nParent != oParent && !vfs.User().IsAdmin() {
+			c.mu.RLock()
+			ok := c.checkPermission(avfs.OpenWrite, vfs.User())
+			c.mu.RUnlock()
+
+			if !ok {
+				return &os.LinkError{Op: op, Old: oldpath, New: newpath, Err: vfs.err.PermDenied}
+			}
 		}
 	case *fileNode, *symlinkNode:
 		// Renaming a file to itself or to another hard link of itself does nothing.
